@@ -442,7 +442,7 @@ def t_files(shard, nshards, seed, ev, known, n=50):
 def plan(tier):
     q = tier == "quick"
     return [
-        Task("history", t_history, shards=4 if q else 16, n=150 if q else 3000, steps=40 if q else 60),
+        Task("history", t_history, shards=4 if q else 16, n=150 if q else 1500, steps=40 if q else 60),
         Task("bulk", t_bulk, shards=4 if q else 16, n=2 if q else 12, size=6000 if q else 12000),
         Task("bulk_long", t_bulk, shards=2 if q else 8, n=1 if q else 4, size=24000 if q else 60000),
         Task("foreign", t_foreign, shards=2 if q else 16, n=400 if q else 10000),
